@@ -323,12 +323,12 @@ func (c *c06) Apply(e seqx.Event) seqx.StepResult {
 	case "Dup":
 		p, seq := int(e.A[0]), uint32(e.A[1])
 		ref := c.rx[rxKey(p, seq)]
-		d0 := c.W.V.Dump(pfcp.DumpOpt{NoTrans: true}) + c.W.D.Dump()
+		d0 := c.W.V.Dump(pfcp.DumpOpt{NoTrans: true, NoExtra: true}) + c.W.D.Dump()
 		o = c.W.Send(p, ref.req)
 		if j.Crashed(c.W, o) {
 			break
 		}
-		d1 := c.W.V.Dump(pfcp.DumpOpt{NoTrans: true}) + c.W.D.Dump()
+		d1 := c.W.V.Dump(pfcp.DumpOpt{NoTrans: true, NoExtra: true}) + c.W.D.Dump()
 		if len(o.Calls) != 0 || d0 != d1 {
 			j.Fail("duplicate-executed:"+kindName[ref.kind], "a byte-identical copy of %s(seq %d) from %c was executed again: data-plane calls %v, state changed=%v", kindName[ref.kind], seq, 'A'+p, o.Calls, d0 != d1)
 		}
@@ -356,7 +356,7 @@ func (c *c06) Apply(e seqx.Event) seqx.StepResult {
 			// stale expiry: the entry is gone; the callback would post the id it was created with
 			id = fmt.Sprintf("%s-%d", c.W.PeerAddr(p), seq)
 		}
-		d0 := c.W.V.Dump(pfcp.DumpOpt{NoTrans: true}) + c.W.D.Dump()
+		d0 := c.W.V.Dump(pfcp.DumpOpt{NoTrans: true, NoExtra: true}) + c.W.D.Dump()
 		o = c.W.Expire(false, id)
 		if j.Crashed(c.W, o) {
 			break
@@ -364,7 +364,7 @@ func (c *c06) Apply(e seqx.Event) seqx.StepResult {
 		if c.realID(p, seq) != "" {
 			j.Fail("bookkeeping-not-released", "receive transaction (%s) still retained after its window elapsed", idxName(e.A[0]))
 		}
-		if d1 := c.W.V.Dump(pfcp.DumpOpt{NoTrans: true}) + c.W.D.Dump(); d0 != d1 || len(o.Calls) != 0 {
+		if d1 := c.W.V.Dump(pfcp.DumpOpt{NoTrans: true, NoExtra: true}) + c.W.D.Dump(); d0 != d1 || len(o.Calls) != 0 {
 			j.Fail("expiry-side-effect", "expiry of receive transaction %s changed session state", idxName(e.A[0]))
 		}
 		for q := range o.Out {
